@@ -117,7 +117,9 @@ package utils
 // constructor NewJobsOrderByQueues creates no node). Helpers require and ensure it.
 //@ define alive(n *queueNode) bool = n != nil && n.children != nil
 //@ define nodesOK() bool = (forall n *queueNode :: n != nil && n.children != nil ==> n.queue != nil && n.children.queue.lessFn != nil) && (forall n *queueNode :: n != nil && n.parent != nil ==> n.parent.children != nil && n.parent.queue != nil && !n.parent.isLeaf)
-//@ define itemsOK() bool = (forall n *queueNode, i int :: n != nil && n.children != nil && n.isLeaf && 0 <= i && i < len(n.children.queue.items) ==> isJob(n.children.queue.items[i])) && (forall n *queueNode, i int :: n != nil && n.children != nil && !n.isLeaf && 0 <= i && i < len(n.children.queue.items) ==> isQN(n.children.queue.items[i]) && qnOf(n.children.queue.items[i]).children != nil)
+//@ define leafItemsOK() bool = forall n *queueNode, i int :: n != nil && n.children != nil && n.isLeaf && 0 <= i && i < len(n.children.queue.items) ==> isJob(n.children.queue.items[i])
+//@ define innerItemsOK() bool = forall n *queueNode, i int :: n != nil && n.children != nil && !n.isLeaf && 0 <= i && i < len(n.children.queue.items) ==> isQN(n.children.queue.items[i]) && qnOf(n.children.queue.items[i]).children != nil
+//@ define itemsOK() bool = leafItemsOK() && innerItemsOK()
 //@ define sepOK() bool = forall n1 *queueNode, n2 *queueNode :: alive(n1) && alive(n2) && n1 != n2 ==> n1.children != n2.children && !samearray(n1.children.queue.items, n2.children.queue.items)
 //@ define rootItemsOK(jo *JobsOrderByQueues) bool = jo.rootNodes != nil ==> jo.rootNodes.queue.lessFn != nil && (forall i int :: 0 <= i && i < len(jo.rootNodes.queue.items) ==> isQN(jo.rootNodes.queue.items[i]) && qnOf(jo.rootNodes.queue.items[i]).children != nil)
 //@ define rootSepOK(jo *JobsOrderByQueues) bool = jo.rootNodes != nil ==> (forall n *queueNode :: alive(n) ==> n.children != jo.rootNodes && !samearray(n.children.queue.items, jo.rootNodes.queue.items))
@@ -171,7 +173,8 @@ package utils
 //@   requires structOK() && nodeQueue(pq) && sepFrom(pq)
 //@   modifies pq.queue.items[*], family(qnOf(pq.queue.items[0]).needsReorder)
 //@   ensures [nodes] nodesOK()
-//@   ensures [items] itemsOK()
+//@   ensures [leafItems] leafItemsOK()
+//@   ensures [innerItems] innerItemsOK()
 //@   ensures [sep] sepOK()
 //@   ensures [nodeQueue] nodeQueue(pq)
 //@   ensures [sepFrom] sepFrom(pq)
